@@ -2,6 +2,7 @@ package mask
 
 import (
 	"regexp"
+	"slices"
 	"unicode/utf8"
 
 	"github.com/ozontech/file.d/cfg"
@@ -197,6 +198,8 @@ func (m *Mask) maskSection(dst, src []byte, begin, end int) []byte {
 }
 
 // mask value returns masked value and bool answer was buf masked at all.
+// Selected groups may be listed in any order, may be nested and may not participate in a match,
+// so their ranges are collected per match, ordered by position and never applied twice to the same bytes.
 func (m *Mask) maskValue(value, buf []byte) ([]byte, bool) {
 	indexes := m.Re_.FindAllSubmatchIndex(value, -1)
 	if len(indexes) == 0 {
@@ -205,14 +208,33 @@ func (m *Mask) maskValue(value, buf []byte) ([]byte, bool) {
 
 	buf = buf[:0]
 
+	var rangesArr [8][2]int
+	ranges := rangesArr[:0]
+
 	prevFinish := 0
-	curStart, curFinish := 0, 0
 	for _, index := range indexes {
+		ranges = ranges[:0]
 		for _, grp := range m.Groups {
-			curStart = index[grp*2]
-			curFinish = index[grp*2+1]
-			if curStart < 0 || curFinish < 0 { // invalid idx check
+			curStart, curFinish := index[grp*2], index[grp*2+1]
+			if curStart < 0 || curFinish < 0 { // group did not participate in the match
 				continue
+			}
+			ranges = append(ranges, [2]int{curStart, curFinish})
+		}
+		slices.SortFunc(ranges, func(a, b [2]int) int {
+			if a[0] != b[0] {
+				return a[0] - b[0]
+			}
+			return b[1] - a[1] // outer group first
+		})
+
+		for _, r := range ranges {
+			curStart, curFinish := r[0], r[1]
+			if curStart < prevFinish { // nested in (or overlapping) a group that is already masked
+				if curFinish <= prevFinish {
+					continue
+				}
+				curStart = prevFinish
 			}
 
 			buf = append(buf, value[prevFinish:curStart]...)
@@ -227,5 +249,5 @@ func (m *Mask) maskValue(value, buf []byte) ([]byte, bool) {
 		}
 	}
 
-	return append(buf, value[curFinish:]...), true
+	return append(buf, value[prevFinish:]...), true
 }
